@@ -85,7 +85,13 @@ impl<'a> io::Read for SimReader<'a> {
         if let ReadStep::Eintr = step {
             self.ctx.with_stats(|s| s.eintr += 1);
             self.ctx.log(EventKind::ReadResult, u64::MAX - 1);
-            return Err(io::Error::new(io::ErrorKind::Interrupted, "simulated EINTR"));
+            // the forms an interrupted read takes: the raw OS error (what a
+            // real read(2) gives), a bare kind, a kind with a message
+            return Err(match self.step % 3 {
+                0 => io::Error::from_raw_os_error(libc::EINTR),
+                1 => io::Error::from(io::ErrorKind::Interrupted),
+                _ => io::Error::new(io::ErrorKind::Interrupted, "simulated EINTR"),
+            });
         }
         let remaining = self.limit - self.pos;
         if remaining == 0 {
